@@ -112,6 +112,12 @@ def observe(keys):
     tree = DeepDiff(t1, t2, view='tree', ignore_private_variables=False)
     lv = list(tree['values_changed'])
     out['tree_list'] = lv[0].path(output_format='list') if len(lv) == 1 else None
+    if len(lv) == 1:
+        # asking again (a second walk over the tree, string form in between) must give the same answers
+        s_form = lv[0].path()
+        again = lv[0].path(output_format='list')
+        if not (type(again) is type(out['tree_list']) and again == out['tree_list']) or lv[0].path() != s_form:
+            out['tree_list'] = ('UNSTABLE', out['tree_list'], again)
     if isinstance(out['parsed'], list):
         try:
             out['stringified'] = stringify_path(out['parsed'], root_element=('root', GET))
